@@ -90,7 +90,7 @@ class Ctx:
         m = res.get("margin")
         if m is not None and m == m and m > self.margin:
             self.margin = float(m)
-            self.margin_case = cid
+            self.margin_case = cid + (("::" + str(res["margin_at"])) if res.get("margin_at") else "")
         if verdict == "violation":
             for v in res.get("violations", []) or [{"relation": "unspecified", "detail": res.get("detail")}]:
                 self.violations.append(
@@ -132,14 +132,22 @@ class Ctx:
     def finish(self) -> int:
         known = load_known_findings()
         listed = {}
+        prefixes = []
         for f in known.get("findings", []):
             if f.get("property") != self.prop:
                 continue
             for k in f.get("keys", []):
                 listed[k] = f
+            for k in f.get("key_prefixes", []):  # one prefix = one specific failing input (case + sub-point)
+                prefixes.append((k, f))
         new, old = [], {}
         for v in self.violations:
             f = listed.get(v["key"])
+            if f is None:
+                for k, pf in prefixes:
+                    if v["key"].startswith(k):
+                        f = pf
+                        break
             if f is None:
                 new.append(v)
             else:
